@@ -87,6 +87,14 @@ func newFile(q Qualifier, rule rule) (Rule, error) {
 	}, nil
 }
 
+// quoteAARE quotes a path taken from a log when it cannot be written as a bare word.
+func quoteAARE(path string) string {
+	if strings.ContainsAny(path, " \t!") && !strings.HasPrefix(path, "\"") {
+		return "\"" + path + "\""
+	}
+	return path
+}
+
 func newFileFromLog(log map[string]string) Rule {
 	accesses, err := toAccess("file-log", log["requested_mask"])
 	if err != nil {
@@ -99,7 +107,7 @@ func newFileFromLog(log map[string]string) Rule {
 		Base:      newBaseFromLog(log),
 		Qualifier: newQualifierFromLog(log),
 		Owner:     IsOwner(log),
-		Path:      log["name"],
+		Path:      quoteAARE(log["name"]),
 		Access:    accesses,
 		Target:    log["target"],
 	}
@@ -272,8 +280,8 @@ func newLinkFromLog(log map[string]string) Rule {
 		Base:      newBaseFromLog(log),
 		Qualifier: newQualifierFromLog(log),
 		Owner:     IsOwner(log),
-		Path:      log["name"],
-		Target:    log["target"],
+		Path:      quoteAARE(log["name"]),
+		Target:    quoteAARE(log["target"]),
 	}
 }
 
